@@ -367,6 +367,9 @@ type c08TLSCase struct {
 	Pre       []string `json:"pre"`  // plaintext commands before STARTTLS
 	Post      []string `json:"post"` // commands inside TLS
 	End       string   `json:"end"`  // "quit" or "eof"
+	// HandshakeFails: the client answers the 220 with plaintext instead of a
+	// ClientHello; the Post commands then go on in the clear
+	HandshakeFails bool `json:"handshake_fails,omitempty"`
 }
 
 func c08TLSRun(c c08TLSCase) Verdict {
@@ -395,17 +398,35 @@ func c08TLSRun(c c08TLSCase) Verdict {
 	}
 	sb.WriteString("STARTTLS\r\n")
 	out, st := w.Exchange([]byte(sb.String()))
+	if st == harness.QGate {
+		// (an open transfer may be wound up before or after the handshake)
+		st = quiesce()
+		out = append(out, w.Recv()...)
+	}
 	if st != harness.QIdle || !bytes.Contains(out, []byte("220 2.0.0 Ready to start TLS")) {
 		w.Finish()
 		return Verdict{Inconclusive: fmt.Sprintf("STARTTLS not accepted: %s (%s)", q(out), st)}
 	}
-	if err := w.StartTLS(); err != nil {
-		w.Finish()
-		return Verdict{Inconclusive: "TLS handshake: " + err.Error()}
-	}
-	if st := quiesce(); st != harness.QIdle {
-		w.Finish()
-		return Verdict{Inconclusive: "after the handshake: " + st}
+	if c.HandshakeFails {
+		w.Send([]byte("this-is-not-a-tls-handshake\r\n"))
+		st := quiesce()
+		rs, perr := harness.ParseReplies(w.Recv())
+		if st == harness.QClosed {
+			// giving up the connection is a legitimate answer too
+			c.Post, c.End = nil, "eof"
+		} else if st != harness.QIdle || perr != nil || len(rs) != 1 || rs[0].Class() == 2 || rs[0].Class() == 3 {
+			w.Finish()
+			return failf("failed-handshake", "plaintext instead of a TLS handshake: server state %s, replies %v (%v)", st, codes(rs), perr)
+		}
+	} else {
+		if err := w.StartTLS(); err != nil {
+			w.Finish()
+			return Verdict{Inconclusive: "TLS handshake: " + err.Error()}
+		}
+		if st := quiesce(); st != harness.QIdle {
+			w.Finish()
+			return Verdict{Inconclusive: "after the handshake: " + st}
+		}
 	}
 	sb.Reset()
 	for _, l := range c.Post {
@@ -426,6 +447,9 @@ func c08TLSRun(c c08TLSCase) Verdict {
 		return finishFail(w)
 	}
 	v := Verdict{NonTrivial: true, Classes: []string{"starttls_replacement"}}
+	if c.HandshakeFails {
+		v.Classes = []string{"starttls_handshake_fails"}
+	}
 	if c.GateStart {
 		v.Classes = append(v.Classes, "delivery_start_gated")
 	}
@@ -503,7 +527,7 @@ func init() {
 
 func TestC08(t *testing.T) {
 	registerAll()
-	st.Rule = "cases = (conversation, cut offset, fault) for every cut offset of generated conversations; (close reason quit|errors|longline|timeout|backend panic in each callback, prefix history, suffix of commands buffered in the same segment), judged metamorphically against the same run without suffix; (history, STARTTLS, history inside TLS); (Server.Close or Shutdown landing while NewSession/Mail/Rcpt/Data of the connection is parked on a gate, the callback returning afterwards); non-trivial = close reason with a non-empty buffered suffix OR a cut inside a transaction OR a STARTTLS session replacement; distinct = hash of the whole case"
+	st.Rule = "cases = (conversation, cut offset, fault) for every cut offset of generated conversations; (close reason quit|errors|longline|timeout|backend panic in each callback, prefix history, suffix of commands buffered in the same segment), judged metamorphically against the same run without suffix; (history, STARTTLS with a successful or a failed handshake, history behind it); (Server.Close or Shutdown landing while NewSession/Mail/Rcpt/Data of the connection is parked on a gate, the callback returning afterwards); non-trivial = close reason with a non-empty buffered suffix OR a cut inside a transaction OR a STARTTLS session replacement; distinct = hash of the whole case"
 	if !regress(t, "C08") {
 		return
 	}
@@ -532,12 +556,12 @@ func TestC08(t *testing.T) {
 	if t.Failed() {
 		return
 	}
-	c08TLS.rapidCheck(t, pickTier(150, 1500), func(rt *rapid.T) c08TLSCase {
+	c08TLS.rapidCheck(t, pickTier(400, 3000), func(rt *rapid.T) c08TLSCase {
 		mode := rapid.IntRange(0, 2).Draw(rt, "mode")
 		g := greetWord(mode != 0)
 		pres := [][]string{{}, {g + " a"}, {g + " a", "MAIL FROM:<s@x>"}, {g + " a", "MAIL FROM:<s@x>", "RCPT TO:<r@x>"}, {g + " a", "MAIL FROM:<s@x>", "RCPT TO:<r@x>", "BDAT 0"}}
 		posts := [][]string{{}, {g + " b"}, {g + " b", "MAIL FROM:<s2@x>", "RCPT TO:<r2@x>", "DATA", "x", "."}, {"MAIL FROM:<s2@x>"}, {g + " b", g + " c"}, {g + " b", "MAIL FROM:<s2@x>", "RCPT TO:<r2@x>", "BDAT 0"}}
 		return c08TLSCase{GateStart: rapid.Bool().Draw(rt, "gate_start"), Mode: mode, Pre: rapid.SampledFrom(pres).Draw(rt, "pre"), Post: rapid.SampledFrom(posts).Draw(rt, "post"),
-			End: rapid.SampledFrom([]string{"quit", "eof"}).Draw(rt, "end")}
+			End: rapid.SampledFrom([]string{"quit", "eof"}).Draw(rt, "end"), HandshakeFails: rapid.IntRange(0, 2).Draw(rt, "handshake_fails") == 0}
 	})
 }
